@@ -9,7 +9,7 @@ histories with callbacks as such; out-of-band corruption patterns beyond the
 decode -> validate -> default structure."""
 from .. import cast, sym
 from ..sym import C, fmt, linearize as L
-from .regs import Regs, T, TYPE_SUFFIX, strip_cast, scan_rule
+from .regs import Regs, T, TYPE_SUFFIX, strip_cast, scan_rule, touch_helpers
 from . import c01, c02
 
 CHECKED = ('register_set', 'register_bit_set', 'register_bit_clear', 'register_block_write', 'register_sanitise')
@@ -300,6 +300,7 @@ def run(ck):
     scan_rule(R, 'C05.c', 'register_sanitise', 'entries')
     rule_b(ck, R)
     rule_c(ck, R)
+    touch_helpers(R, 'C05.c', ('register_untouch', 'register_was_touched'))
     # d: re-run the gate rules under this property's id
     orig_v, orig_viol, orig_holds, orig_floor = ck.verdict, ck.violation, ck.holds, ck.floor
 
